@@ -744,6 +744,10 @@ def faults(ctx, ch):
         for kk in range(1, n + 1):
             if kind == "tmp.write":
                 out.append({"kind": kind, "k": kk, "when": "before", "exc": "ENOSPC"})
+                # construction also "fails" when the download is interrupted while the private
+                # copy is being written (before or after the bytes went out)
+                out.append({"kind": kind, "k": kk, "when": "before", "exc": "KeyboardInterrupt"})
+                out.append({"kind": kind, "k": kk, "when": "after", "exc": "KeyboardInterrupt"})
             else:
                 exc = ERR[short]
                 out.append({"kind": kind, "k": kk, "when": "before",
